@@ -301,6 +301,36 @@ inline void run_laws(JW& j, const Step& st, Document& doc, Dumper& d, const std:
                 lr.run("query:" + q, e);
             }
     }
+    // ---- equality across documents of one process: expressions of documents parsed earlier (kept alive by the request) against this one's
+    static std::vector<std::pair<std::string, expression_t>> pool;
+    size_t n_cross = 0;
+    if (st.get("law_cross", "0") == "1") {
+        std::vector<std::pair<std::string, expression_t>> mine;
+        for (auto& we : c.out)
+            if (!we.second.empty() && mine.size() < 400)
+                mine.push_back(we);
+        for (auto& me : mine)
+            for (auto& pe : pool) {
+                ++n_cross;
+                bool ab = me.second.equal(pe.second), ba = pe.second.equal(me.second);
+                if (ab != ba)
+                    lr.failures.push_back({me.first + " / " + pe.first, "cross-document-equal-symmetric", "a.equal(b) != b.equal(a) for expressions of two documents", d.expr_str(me.second)});
+                else if (ab) {
+                    std::string sa, sb;
+                    try {
+                        sa = me.second.str();
+                        sb = pe.second.str();
+                    } catch (std::exception&) {
+                        continue;
+                    }
+                    if (sa != sb)
+                        lr.failures.push_back({me.first + " / " + pe.first, "cross-document-equal-implies-text", "equal() holds for '" + sa + "' and '" + sb + "' of two documents", d.expr_str(me.second)});
+                }
+            }
+        for (auto& me : mine)
+            if (pool.size() < 1200)
+                pool.push_back(me);
+    }
     // ---- type_t::subst (used by expr_dot for P.x): substituting a template parameter in the type of a template variable
     size_t n_type_subst = 0;
     auto type_laws = [&](template_t& t) {
@@ -345,6 +375,7 @@ inline void run_laws(JW& j, const Step& st, Document& doc, Dumper& d, const std:
             type_laws(t);
     j.k("laws").o();
     j.k("type_substitutions").num((long long)n_type_subst);
+    j.k("cross_document_pairs").num((long long)n_cross);
     j.k("expressions").num((long long)lr.n_exprs);
     j.k("query_expressions").num((long long)qparsed);
     j.k("nodes").num((long long)lr.n_nodes);
